@@ -135,6 +135,9 @@ class Monitor:
         return True
 
 
+MON = None
+
+
 def install(ctx):
     from plotink import plot_utils
     mon = Monitor(ctx)
@@ -142,6 +145,8 @@ def install(ctx):
     contracts.install(plot_utils, "constrainLimits", post=mon.post_constrain, ctx=ctx)
     contracts.install(plot_utils, "checkLimitsTol", post=mon.post_tol, ctx=ctx)
     contracts.install(plot_utils, "point_in_bounds", post=mon.post_pib, ctx=ctx)
+    global MON
+    MON = mon
     return mon
 
 
@@ -158,6 +163,10 @@ def drive(ctx, value, lo, hi, tol, other=None):
         for point, bounds, flags in (((value, oy), ((lo, olo), (hi, ohi)), (flag, oflag)),
                                      ((oy, value), ((olo, lo), (ohi, hi)), (oflag, flag))):
             inb = plot_utils.point_in_bounds(point, bounds, tol)
+            if MON.tol_flag(point[0], bounds[0][0], bounds[1][0], tol) is None or \
+                    MON.tol_flag(point[1], bounds[0][1], bounds[1][1], tol) is None:
+                ctx.count("borderline (within 4 ulp of bound +- tolerance): agreement not decided")
+                continue
             ctx.count("monitor:point_in_bounds == per-axis checkLimitsTol (real vs real)")
             if inb is not (not (flags[0] or flags[1])):
                 ctx.violation("point_in_bounds disagrees with checkLimitsTol", {
@@ -206,6 +215,10 @@ def history(ctx, rng):
             return
         ctx.case(["history: bounds object re-used and changed in place", "history step %d" % min(step, 3)],
                  ("h", tuple(point), tuple(bounds[0]), tuple(bounds[1]), tol, step))
+        if MON.tol_flag(point[0], bounds[0][0], bounds[1][0], tol) is None or \
+                MON.tol_flag(point[1], bounds[0][1], bounds[1][1], tol) is None:
+            ctx.count("borderline (within 4 ulp of bound +- tolerance): agreement not decided")
+            continue
         ctx.count("monitor:point_in_bounds == per-axis checkLimitsTol (real vs real)")
         if inb is not (not (fx or fy)):
             ctx.violation("point_in_bounds disagrees with checkLimitsTol", {
@@ -319,7 +332,29 @@ def run(ctx):
         done += 1
         if done % 4 == 0:
             history(ctx, rng)
-    for cls in ("below lower-tol", "exactly lower-tol", "within tol below lower", "exactly lower",
+    # (c) mixed int / float arguments where floats stop being able to tell neighbouring integers apart
+    for _ in range(ctx.budget(6_000, 120_000)):
+        e = rng.choice((53, 53, 54, 55, 60, 62))
+        base = 2 ** e
+        as_float = lambda v: float(v)      # noqa: E731 (exact for the multiples used)
+        step = 2 ** max(0, e - 52)          # float spacing at this magnitude
+        lo_i = rng.choice((0, -base, base - 8 * step))
+        hi_i = base + rng.choice((0, 2 * step, 8 * step))
+        mix = rng.randrange(4)
+        lo, hi = (lo_i, hi_i) if mix == 0 else (as_float(lo_i), as_float(hi_i)) if mix == 1 else \
+            (lo_i, as_float(hi_i)) if mix == 2 else (as_float(lo_i), hi_i)
+        if lo > hi:
+            continue
+        tol = rng.choice((0, 0, 0, step, 3, 1e-9, 0.5))
+        near = rng.choice((hi_i, lo_i))
+        value = near + rng.choice((-3, -2, -1, 0, 1, 2, 3, step, -step, 2 * step + 1))
+        if rng.random() < 0.3:
+            value = float(value)
+        cls = position_class(value, lo, hi, tol) + ["numbers:mixed int/float around 2^%d" % e,
+                                                    "numbers:mixed int/float beyond 2^53"]
+        ctx.case(cls, ("mixed", value, lo, hi, tol, type(value).__name__, type(lo).__name__, type(hi).__name__))
+        drive(ctx, value, lo, hi, tol)
+    for cls in ("numbers:mixed int/float beyond 2^53", "below lower-tol", "exactly lower-tol", "within tol below lower", "exactly lower",
                 "strictly inside", "exactly upper", "within tol above upper", "exactly upper+tol",
                 "above upper+tol", "lower==upper", "tol=0", "numbers:int", "numbers:dyadic",
                 "numbers:float", "history: bounds object re-used and changed in place"):
